@@ -40,6 +40,9 @@ use verif_harness::util::{quiet_panics, Rng, LAST_PANIC_LOC};
 
 const STACK: usize = 64 << 20;
 const NMOD: usize = 3;
+/// further small modules that no change ever touches: a workspace of a realistic number of files (code that treats
+/// "many modules" differently from "a few" gets to run)
+const NFILL: usize = 7;
 
 // ------------------------------------------------------------------------------------------------
 // workload: generated Gleam modules
@@ -313,6 +316,9 @@ fn fresh_host(texts: &[Arc<str>]) -> AnalysisHost {
         change.change_file(FileId(i as u32), t.clone());
     }
     change.change_file(FileId(texts.len() as u32), toml().into());
+    for k in 0..NFILL {
+        change.change_file(FileId((texts.len() + 1 + k) as u32), format!("pub fn filler{k}(x) {{ x + {k} }}\npub fn twice{k}(y) {{ filler{k}(filler{k}(y)) }}\n").as_str().into());
+    }
     workspace_layout(&mut change, texts.len());
     let mut host = AnalysisHost::new();
     host.apply_change(change);
@@ -329,12 +335,15 @@ fn workspace_layout(change: &mut Change, nmod: usize) {
     }
     let tf = FileId(nmod as u32);
     set.insert(tf, VfsPath::new("/gleam.toml"));
+    for k in 0..NFILL {
+        set.insert(FileId((nmod + 1 + k) as u32), VfsPath::new(format!("/test/filler{k}.gleam")));
+    }
     change.set_roots(vec![SourceRoot::new(set, "/".into())]);
     let mut g = PackageGraph::default();
     g.add_package("test".into(), tf, true);
     change.set_package_graph(g);
 }
-const META_WRITES: usize = 1 + (NMOD + 1) + 2;
+const META_WRITES: usize = 1 + (NMOD + 1 + NFILL) + 2;
 /// content id of the intermediate text a change `c` queues for a file before the final one: differs from every
 /// final content id (0..=4) in header length, return-type variant (except one pair), constant and syntax error
 const MID: usize = 50;
